@@ -143,6 +143,23 @@ services:
 	if err != nil {
 		return nil, err
 	}
+	// every substitution operator, in two different mixes (tables chosen per template must not be shared between loads)
+	opsDoc := func(forms []string) string {
+		var sb strings.Builder
+		sb.WriteString("services:\n  app:\n    image: img\n    labels:\n")
+		for i := 0; i < 24; i++ {
+			fmt.Fprintf(&sb, "      l%d: \"%s\"\n", i, strings.ReplaceAll(forms[i%len(forms)], "%d", fmt.Sprint(i)))
+		}
+		return sb.String()
+	}
+	err = add("o1", "plain", map[string]string{"compose.yaml": opsDoc([]string{"${SET:-d%d}", "${EMPTY:-d%d}", "${UNSET-d%d}", "${SET-d%d}", "$SET-plain%d", "${UNSET:-${SET}%d}"})}, []string{"compose.yaml"}, map[string]string{"SET": "s", "EMPTY": ""})
+	if err != nil {
+		return nil, err
+	}
+	err = add("o2", "plain", map[string]string{"compose.yaml": opsDoc([]string{"${SET:+a%d}", "${UNSET+a%d}", "${SET:?m%d}", "${SET?m%d}", "${EMPTY?m%d}", "${EMPTY+a%d}", "${SET:+${UNSET:-x}%d}"})}, []string{"compose.yaml"}, map[string]string{"SET": "s", "EMPTY": ""})
+	if err != nil {
+		return nil, err
+	}
 	err = add("p3", "plain", map[string]string{"compose.yaml": `services:
   bad: {image: x, depends_on: [missing]}
 `}, []string{"compose.yaml"}, map[string]string{})
